@@ -465,7 +465,7 @@ def step_text(st):
             else:
                 s += t[1][0]
         parts.append(s)
-    return st['mn'] + (' ' + ', '.join(parts) if parts else '')
+    return st.get('mn_text', st['mn']) + (' ' + ', '.join(parts) if parts else '')
 
 
 def isa_doc(isa, cfg):
@@ -692,9 +692,11 @@ def operand_for(rng, alt, labels, addr_hint=0):
             lim = 1 << (alt['offset']['size'] - 1)
             body = body + Txt(sp() + s + sp(), [t_op('OAdd' if s == '+' else 'OSub')]) + x_num(rng, rng.choice([0, 1, 2 % lim, lim - 1]))
             if rng.random() < 0.3:
-                # an offset of several terms: the sign in front of it belongs to its first term only ([sp - 2 + 1] is -1)
-                s2 = rng.choice(['+', '-'])
-                body = body + Txt(sp() + s2 + sp(), [t_op('OAdd' if s2 == '+' else 'OSub')]) + x_num(rng, rng.choice([1, 1, 2 % lim]))
+                # an offset of several terms: the sign in front of it belongs to its first term only ([sp - 2 + 1] is -1); the
+                # offset after a minus is subtracted as a whole first term ([sp - 6 % 4] is -(6 % 4), not (-6) % 4)
+                s2 = rng.choice(['+', '-', '%', '*'])
+                opn = {'+': 'OAdd', '-': 'OSub', '%': 'OMod', '*': 'OMul'}[s2]
+                body = body + Txt(' ' + s2 + ' ', [t_op(opn)]) + x_num(rng, rng.choice([1, 3, 2 % lim] if s2 in '+-*' else [4, 3, 5]))
         return decorate(Txt('[' + sp(), ['OLBr']) + body + Txt(sp() + ']', ['ORBr']), alt['dec'])
     if k in ('numeric', 'indirect_numeric', 'deferred_numeric'):
         size = alt['arg']['size']
@@ -978,13 +980,26 @@ def gen_macro_scenario(rng, prof=None, tier='quick'):
     isa['instrs']['pop2'] = [variant(0x6, 4, spec_parser(1, [[indreg(1, False)]])), variant(0x7, 4, spec_parser(1, [[indreg(2, True)]]))]
     isa['sets']['irs'] = [indreg(3, False), indreg(4, True)]
     isa['instrs']['pop3'] = [variant(0x8, 4, sets_parser(['irs']))]
+    # an index whose configured range reaches beyond what its 3 bit field can hold: the field width still applies
+    isa['sets']['ixw'] = [{'id': 'ix2', 'kind': 'indexed_register', 'code': (2, 2), 'pos': 'suffix', 'register': 'x', 'dec': None,
+                           'idx': [{'id': 'ix2_0', 'kind': 'numeric_bytecode', 'code': None, 'code_size': 3, 'min': -6, 'max': 9}]}]
+    isa['instrs']['add4'] = [variant(0x6, 3, sets_parser(['ixw']))]
+    # an alternative that reads its text as an expression (and finds it malformed) in front of one that accepts such text
+    isa['sets']['mixd'] = [{'id': 'ne1', 'kind': 'numeric_enumeration', 'code': None, 'pos': 'suffix', 'code_size': 4, 'code_dict': {1: 6, 2: 7},
+                            'arg': None, 'arg_dict': None},
+                           {'id': 'rd1', 'kind': 'register', 'code': (9, 4), 'pos': 'suffix', 'register': 'x', 'dec': ('plus', False)}]
+    isa['instrs']['ldm'] = [variant(0x9, 4, sets_parser(['mixd']))]
+    # three operands, one combination of which is disallowed
+    tri = sets_parser(['rr', 'rr', 'rr'])
+    tri['sets']['disallowed'] = [['r2', 'r3', 'r2'], ['r3', 'r3', 'r3']]
+    isa['instrs']['tri'] = [variant(0xA, 4, tri)]
     isa['instrs']['add3b'] = [variant(0x1A, 5, sets_parser(['nb1']))]
     isa['instrs']['cmpq2'] = [variant(0xB, 4, sets_parser(['nb2']))]
     ph = ('ph', 'ARG', 0)
     forms = [[ph], [ph, ('tok', '*', t_op('OMul')), ('tok', '2', t_num(2))], [('tok', '3', t_num(3)), ('tok', '*', t_op('OMul')), ph],
              [ph, ('tok', '+', t_op('OAdd')), ('tok', '1', t_num(1))], [('tok', '9', t_num(9)), ('tok', '-', t_op('OSub')), ph],
              [ph, ('tok', '>>', t_op('OShr')), ('tok', '1', t_num(1))], [('tok', '(', 'OT TLPar'), ph, ('tok', ')', 'OT TRPar'), ('tok', '*', t_op('OMul')), ('tok', '2', t_num(2))]]
-    steps = [{'mn': 'ldx', 'ops': [list(rng.choice(forms))]} for _ in range(rng.randint(1, 3))]
+    steps = [{'mn': 'ldx', 'mn_text': rng.choice(['ldx', 'ldx', 'LDX', 'Ldx']), 'ops': [list(rng.choice(forms))]} for _ in range(rng.randint(1, 3))]
     if rng.random() < 0.5:
         steps.insert(rng.randrange(len(steps) + 1), {'mn': 'tst', 'ops': []})
     isa['macros']['dbl'] = [{'parser': sets_parser(['imm']), 'steps': steps}]
@@ -1014,7 +1029,7 @@ def gen_macro_scenario(rng, prof=None, tier='quick'):
         return Txt(f'{n}+{b}', [t_lab(n), t_op('OAdd'), t_num(b)])
     kinds = ['dbl'] * 5 + ['mac1'] * 2 + ['mac2'] * 2 + ['swp', 'mac3', 'mac3', 'add3', 'add3', 'cmpq', 'cmpq', 'mac4', 'mac4', 'mac5', 'mac5',
                                                           'ldx', 'tst', 'psh2', 'psh2', 'mac6', 'mac6', 'jmpz2', 'jmpz2', 'swp2', 'add3b', 'add3b', 'add3b', 'cmpq2', 'cmpq2', 'cmpq2',
-                                                          'ld3', 'ld3', 'ld2', 'ld2', 'pop2', 'pop2', 'pop2']
+                                                          'ld3', 'ld3', 'ld2', 'ld2', 'pop2', 'pop2', 'pop2', 'add4', 'add4', 'ldm', 'ldm', 'tri', 'tri']
     # a program is rejected as a whole by one unacceptable statement: at most one statement kind that may be unacceptable
     risky_left = 1 if rng.random() < 0.5 else 0
     for _ in range(rng.randint(2, 7)):
@@ -1078,6 +1093,22 @@ def gen_macro_scenario(rng, prof=None, tier='quick'):
                                Txt('[x - 1]', ['OLBr', t_lab('x'), t_op('OSub'), t_num(1), 'ORBr']),
                                Txt('[ x + K9 ]', ['OLBr', t_lab('x'), t_op('OAdd'), t_lab('K9'), 'ORBr'])])
             stmts.append(['asm', rng.choice(['pop2', 'pop2', 'pop3']), [[form.text, form.toks]]])
+        elif k == 'add4':
+            i = rng.choice([0, 3, -4, 7] + ([8, 9, -5, -6, 10, -7] if risky_left else []))
+            risky_left = 0 if i not in (0, 3, -4, 7) else risky_left
+            x = x_num(rng, i)
+            stmts.append(['asm', 'add4', [['x+' + x.text, [t_lab('x'), t_op('OAdd')] + x.toks]]])
+        elif k == 'ldm':
+            form = rng.choice([Txt('x+', [t_lab('x'), t_op('OAdd')]), Txt('2', [t_num(2)]), Txt('1', [t_num(1)]), Txt('X+', [t_lab('X'), t_op('OAdd')])]
+                              + ([Txt('x', [t_lab('x')]), Txt('3', [t_num(3)])] if risky_left else []))
+            risky_left = 0 if form.text in ('x', '3') else risky_left
+            stmts.append(['asm', 'ldm', [[form.text, form.toks]]])
+        elif k == 'tri':
+            ok3 = [['a', 'a', 'a'], ['a', 'b', 'b'], ['b', 'a', 'b'], ['a', 'b', 'a'][::-1]]
+            bad3 = [['a', 'b', 'a'], ['b', 'b', 'b']]
+            pick = rng.choice(ok3 + (bad3 if risky_left else []))
+            risky_left = 0 if pick in bad3 else risky_left
+            stmts.append(['asm', 'tri', [[r_, [t_lab(r_)]] for r_ in pick]])
         elif k == 'swp2':
             rg = rng.choice(['a', 'b'])
             stmts.append(['asm', 'swp2', [[rg, [t_lab(rg)]]]])
@@ -1109,7 +1140,14 @@ def gen_macro_scenario(rng, prof=None, tier='quick'):
         if x not in placed:
             stmts.append(['label', x])
     stmts.append(['data', 2, [('lab', 'lbl1'), ('lab', 'lbl2')]])
-    return {'cfg': cfg, 'isa': isa, 'isa_yaml': isa_yaml(isa, cfg), 'files': [{'name': 'main.asm', 'dir': 'src', 'stmts': stmts}],
+    files = [{'name': 'main.asm', 'dir': 'src', 'stmts': stmts}]
+    if rng.random() < 0.3:
+        def fb(n):
+            return [['label', '_fb'], ['data', 1, [num(n)]], ['asm', 'dbl', [['_fb', [t_lab('_fb')]]]],
+                    ['asm', 'ldx', [['_fb+1', [t_lab('_fb'), t_op('OAdd'), t_num(1)]]]]]
+        stmts += fb(1) + [['include', 1, 'inc1.asm']]
+        files.append({'name': 'inc1.asm', 'dir': 'src', 'stmts': [['data', 1, [num(9)]]] + fb(2)})
+    return {'cfg': cfg, 'isa': isa, 'isa_yaml': isa_yaml(isa, cfg), 'files': files,
             'include_dirs': [], 'extra_files': [], 'opts': {'start': cfg['origin'], 'end': None, 'fill': 0}}
 
 
@@ -1152,6 +1190,10 @@ def gen_constraint_scenario(rng, prof=None, tier='quick'):
     isa['sets']['vnum'] = [{'id': 'vn1', 'kind': 'numeric', 'code': None, 'pos': 'suffix', 'arg': {'size': bits, 'align': True, 'endian': None},
                             'valid': True}]
     isa['instrs']['lea'] = [variant(0xE3, 8, sets_parser(['vnum']))]
+    # slice_lsb without match_address_msb: nothing is cut off, so a value wider than the field does not fit
+    isa['sets']['slb'] = [{'id': 'sb1', 'kind': 'address', 'code': None, 'pos': 'suffix', 'arg': {'size': ssz, 'align': ssz % 8 == 0, 'endian': None},
+                           'zone': None, 'slice': True, 'msb': False}]
+    isa['instrs']['ldz'] = [variant(0xD if osz == 4 else 0xD4, osz, sets_parser(['slb']))]
     cfg = dict(addr_bits=bits, endian=e, origin=base, page=1, terminator=0, embedded=False, zones=[], consts=[], data=[], syms=[], cli=[])
     top = (1 << bits) - 1
     mask = (1 << ssz) - 1
@@ -1168,12 +1210,22 @@ def gen_constraint_scenario(rng, prof=None, tier='quick'):
         if i > 0:
             at += rng.choice([0x10, 0x24, 0x31, 1 << ssz])
             stmts.append(['org', num(at), None])
-        k = rng.choice(['jps', 'jps', 'skp', 'lop', 'brb', 'tst', 'lea'])
+        k = rng.choice(['jps', 'jps', 'skp', 'lop', 'brb', 'tst', 'lea', 'ldz'])
         if k == 'jps' and rng.random() < 0.3 and i > 0:
             # the jump is the last thing in its page: the page is that of the instruction's own address
             at = (at | mask) - rng.choice([0, 1])
             stmts[-1] = ['org', num(at), None]
-        if k == 'lea':
+        if k == 'ldz':
+            good = [v_ for v_ in (0, 1, mask, mask // 2) if gs <= v_ <= ge]
+            bad = [v_ for v_ in (mask + 1, at, at | mask, (mask + 1) * 3 + 2) if v_ > mask and gs <= v_ <= ge]
+            pool = good + (bad if risky_left else [])
+            if pool:
+                v = rng.choice(pool)
+                risky_left = 0 if v in bad else risky_left
+                stmts.append(['asm', 'ldz', [[f'${v:x}', [t_num(v)]]]])
+            else:
+                stmts.append(['asm', 'tst', []])
+        elif k == 'lea':
             good = [gs, ge, base, (gs + ge) // 2]
             bad = [x for x in (gs - 1, ge + 1, 0 if gs > 0 else -1, top if ge < top else -1) if 0 <= x <= top and not gs <= x <= ge]
             v = rng.choice(good + (bad if risky_left else []))
